@@ -24,6 +24,28 @@
              `return`, `yield` (appends to the output list), `raise`, inlined call of a nested helper.
              `xs.append(v)` is `xs = xs + [v]`, `xs.remove(v)` is `xs = remove(xs, v)` (value semantics; the
              translator rejects programs in which the difference to Python's shared mutable lists could show).
+             Phase 6 (orchestration code, notes/PHASE6_A.md):
+             * EFFECTS: a call whose result is discarded (`callback(comp)`, `self._log(msg)`) is the statement
+               `.yield (.ext …)`: the value the external returns is appended to the output list, which for a
+               procedure is its EFFECT TRACE (`Fn.runTr` = returned value + trace).  Externals stay pure functions
+               of their arguments; the order of the effects is the order of the trace.
+             * `x.f = e` (`setAttr`): `x` holds an object (record); value semantics `x = x with f := e`
+               (`recordSet`: the field keeps its place, a new field is appended).  For `self.f = e` the final
+               value of `self` is read off the final state of `Fn.flow` (`Fn.runSelf`).  The translator rejects
+               programs in which an alias of the object could observe the difference.
+             * `try: body except Exception [as x]: handler` (`tryExcept`): a `.raise exc` of the body whose class
+               is not one of the `BaseException`-only classes (`KeyboardInterrupt`, `SystemExit`,
+               `GeneratorExit`) is caught: the handler runs in the state in which the `try` was entered, with `x`
+               bound to an exception object (`excVal exc`, a record).  The translator only accepts a body that is
+               ONE statement without effects, so that no assignment / effect of the body is lost by this.
+               `.stuck` is never caught.
+             * BOUND-METHOD CALLS `x = self.m(a, …)` of a method that is itself translated (`callFn`): the
+               arguments are evaluated in the caller's state, the callee's body (`Fc.Gen.<m>Src.body`, referred to
+               by name in the rendering) runs in a FRESH environment binding its parameters, with an empty
+               trace; its trace is appended to the caller's, its returned value (or `None`) is bound to `x`;
+               exceptions / stuck propagate (then the callee's trace is dropped with the caller's: a raise ends
+               the whole run unless a `tryExcept` catches it, see above).  `exec_callFn` (Lemmas/PyLiteOrch.lean)
+               restates this as `Fn.flow` of the callee, so the callee's own theorem is used as a rewrite rule.
 
   Results    `.ok v` | `.raise exc` (a Python exception of the modelled semantics: IndexError,
              ZeroDivisionError, an explicit `raise`) | `.stuck` (outside the modelled semantics:
@@ -180,6 +202,13 @@ inductive Stmt where
       the current state, its `return v` ends the BLOCK (not the enclosing function) and binds `x`;
       falling off the end binds `None` -/
   | inlineCall (x : String) (body : List Stmt)
+  /-- `x.f = e` for a variable `x` holding an object (record): `x = x with f := e` -/
+  | setAttr (x : String) (f : String) (e : Expr)
+  /-- `try: body except Exception as x: handler` (the translator writes `x` also when the source has no `as`) -/
+  | tryExcept (body : List Stmt) (x : String) (handler : List Stmt)
+  /-- `x = f(args)` for a function `f` that is itself translated (`params`, `body` are those of its `Fn`):
+      fresh environment, own trace appended to the caller's -/
+  | callFn (x : String) (params : List String) (body : List Stmt) (args : List Expr)
 
 structure Fn where
   name : String
@@ -364,6 +393,23 @@ def compM (f : Val → Res (Option Val)) : List Val → Res (List Val)
   | [] => .ok []
   | v :: vs => (f v).bind fun o => (compM f vs).map fun r => match o with | some x => x :: r | Option.none => r
 
+/-- `obj.f = v`: the field keeps its place, a new field is appended -/
+def recordSet (f : String) (v : Val) : List (String × Val) → List (String × Val)
+  | [] => [(f, v)]
+  | (g, w) :: r => if g == f then (g, v) :: r else (g, w) :: recordSet f v r
+
+/-- the object bound by `except Exception as e` -/
+def excVal (exc : String) : Val := .record [("__exc__", .str exc)]
+
+/-- is an exception of class `exc` caught by `except Exception`?  (everything but the `BaseException`-only classes) -/
+def caughtByException (exc : String) : Bool :=
+  !(exc == "KeyboardInterrupt" || exc == "SystemExit" || exc == "GeneratorExit" || exc == "BaseException")
+
+def initEnv : List String → List Val → Option Env
+  | [], [] => some []
+  | p :: ps, v :: vs => (initEnv ps vs).map fun r => (p, v) :: r
+  | _, _ => Option.none
+
 /-! ### expressions -/
 
 mutual
@@ -446,6 +492,20 @@ def listSet (xs : List Val) (i : Val) (v : Val) : Res Val :=
     else if k.toNat < xs.length then .ok (.list (xs.set k.toNat v)) else .raise "IndexError"
   | _ => .stuck
 
+/-- entering a call: the callee's parameters are bound in a FRESH environment, its trace starts empty -/
+def enterCall (ps : List String) (vs : List Val) (run : St → Flow) : Flow :=
+  match initEnv ps vs with
+  | some env => run ⟨env, []⟩
+  | Option.none => .stuck
+
+/-- leaving a call `x = f(…)`: the returned value (`None` when the callee fell off its end) is bound to `x` in the
+    CALLER's state `st`, the callee's trace is appended to the caller's; exceptions / stuck propagate -/
+def callRet (x : String) (st : St) : Flow → Flow
+  | .next st' => .next ⟨(x, Val.none) :: st.env, st.out ++ st'.out⟩
+  | .ret v st' => .next ⟨(x, v) :: st.env, st.out ++ st'.out⟩
+  | .raise exc => .raise exc
+  | .stuck => .stuck
+
 mutual
 def exec (X : Ext) : Stmt → St → Flow
   | .assign x e, st => withVal (eval X e st.env) fun v => .next (st.set x v)
@@ -475,6 +535,20 @@ def exec (X : Ext) : Stmt → St → Flow
     | .next st' => .next (st'.set x .none)
     | .ret v st' => .next (st'.set x v)
     | r => r
+  | .setAttr x f e, st =>
+    withVal (eval X (.var x) st.env) fun o => withVal (eval X e st.env) fun v =>
+      match o with
+      | .record fs => .next (st.set x (.record (recordSet f v fs)))
+      | _ => .stuck
+  | .tryExcept body x handler, st =>
+    match execBlock X body st with
+    | .raise exc => if caughtByException exc then execBlock X handler (st.set x (excVal exc)) else .raise exc
+    | r => r
+  | .callFn x ps body args, st =>
+    match evalList X args st.env with
+    | .ok vs => callRet x st (enterCall ps vs (execBlock X body))
+    | .raise exc => .raise exc
+    | .stuck => .stuck
 def execBlock (X : Ext) : List Stmt → St → Flow
   | [], st => .next st
   | s :: ss, st =>
@@ -484,11 +558,6 @@ def execBlock (X : Ext) : List Stmt → St → Flow
 end
 
 /-! ### running a function -/
-
-def initEnv : List String → List Val → Option Env
-  | [], [] => some []
-  | p :: ps, v :: vs => (initEnv ps vs).map fun r => (p, v) :: r
-  | _, _ => Option.none
 
 /-- the final flow of a call -/
 def Fn.flow (X : Ext) (f : Fn) (args : List Val) : Flow :=
@@ -511,5 +580,23 @@ def Fn.runGen (X : Ext) (f : Fn) (args : List Val) : Res (List Val) :=
   | .ret _ st => .ok st.out
   | .raise e => .raise e
   | .stuck => .stuck
+
+/-- value returned by a call of a procedure together with its effect trace (the values of its `.yield` statements
+    and of the procedures it called, in order) -/
+def Fn.runTr (X : Ext) (f : Fn) (args : List Val) : Res (Val × List Val) :=
+  match f.flow X args with
+  | .next st => .ok (.none, st.out)
+  | .ret v st => .ok (v, st.out)
+  | .raise e => .raise e
+  | .stuck => .stuck
+
+/-- a METHOD call `self.m(args)` seen from outside: returned value, effect trace and the final value of the first
+    parameter (`self`, which `setAttr` statements may have updated) -/
+def Fn.runSelf (X : Ext) (f : Fn) (args : List Val) : Res (Val × List Val × Val) :=
+  match f.params, f.flow X args with
+  | p :: _, .next st => match st.env.lookup p with | some s => .ok (.none, st.out, s) | Option.none => .stuck
+  | p :: _, .ret v st => match st.env.lookup p with | some s => .ok (v, st.out, s) | Option.none => .stuck
+  | _, .raise e => .raise e
+  | _, _ => .stuck
 
 end Fc.PyLite
